@@ -520,6 +520,43 @@ func c16Case(r *mon.Run, idx int64) {
 			r.Count("two_phase_dicts", 1)
 		}
 	}
+	// DictFunc whose callback adds nothing but keeps the Dict (and the Dict DictFunc returns): pairs added afterwards
+	// through either reference are pairs of the literal
+	if ok && idx%7 == 0 && len(ps) >= 1 {
+		for _, via := range []string{"captured", "returned"} {
+			var captured jen.Dict
+			var ret jen.Dict
+			pp, what := mon.Guard(func() {
+				ret = jen.DictFunc(func(d jen.Dict) { captured = d })
+				target := captured
+				if via == "returned" {
+					target = ret
+				}
+				f := jen.NewFile("p")
+				f.Var().Id("X").Op("=").Id("M").Values(ret)
+				renderFile(f) // rendered once while still empty
+				for _, p := range ps {
+					target[p.mkKey()] = p.mkVal()
+				}
+				src, fail := renderFile(f)
+				g := jen.NewFile("p")
+				g.NoFormat = true
+				g.Var().Id("X").Op("=").Id("M").Values(ret)
+				raw, fail2 := renderFile(g)
+				if fail != "" || fail2 != "" {
+					r.Violate("dict-render-failure", c, "DictFunc(empty callback) filled afterwards (%s Dict) does not render: %s %s\n%s", via, fail, fail2, desc)
+					return
+				}
+				for _, p := range judgeDict(ps, src, raw) {
+					r.Violate("dict-pairs", c, "DictFunc whose callback adds nothing, pairs added afterwards through the %s Dict: %s\n%s\noutput:\n%s", via, p, desc, src)
+				}
+			})
+			if pp {
+				r.Violate("dict-render-failure", c, "DictFunc(empty callback), pairs added afterwards through the %s Dict: panic %s\n%s", via, mon.Trunc(what, 300), desc)
+			}
+			r.Count("dictfunc_filled_after_construction", 1)
+		}
+	}
 	r.Eval(desc, nontriv >= 2)
 	r.Count(fmt.Sprintf("dicts.pairs=%02d", min(len(ps), 10)), 1)
 	for _, p := range ps {
